@@ -26,6 +26,9 @@ func (p *Program) extraCoverage(prop string) map[string]interface{} {
 	if p.conformanceNote != "" {
 		out["dependency_conformance_audit"] = p.conformanceNote
 	}
+	if p.twinStats != nil {
+		out["clause_twins"] = p.twinStats
+	}
 	if p.returnCoverStats != nil {
 		out["return_path_covers"] = p.returnCoverStats
 	}
